@@ -160,7 +160,19 @@ def execute(pid, tier, seed, cases, assumptions, extra_cov=None, budget_s=None, 
         rank = {n: i for i, n in enumerate(order)}
         queries.sort(key=lambda q: rank[qcase[q.name][0].name])
     log('%s/%s: %d cases -> %d CBMC queries on %d workers%s' % (pid, tier, len(cases), len(queries), jobs or NCPU, (' (admission budget %d s)' % budget_s) if budget_s else ''))
-    results = run_queries(queries, logdir, jobs=jobs, budget_s=budget_s)
+    # coverage-goal queries run after the others, with the loop bounds their case's main query ended up with (cover mode has
+    # no unwinding assertions, so it cannot raise a bound by itself)
+    first = [q for q in queries if not getattr(q, 'cover', False)]; second = [q for q in queries if getattr(q, 'cover', False)]
+    res1 = run_queries(first, logdir, jobs=jobs, budget_s=budget_s)
+    final_uws = {}
+    for q, r in zip(first, res1):
+        if qcase[q.name][1] in ('plain', 'excl') and r.get('unwindset'): final_uws.setdefault(qcase[q.name][0].name, r['unwindset'])
+    for q in second:
+        u = final_uws.get(qcase[q.name][0].name)
+        if u: q.uws_override = u
+    res2 = run_queries(second, logdir, jobs=jobs, budget_s=budget_s) if second else []
+    bn = {r['name']: r for r in res1 + res2}
+    results = [bn[q.name] for q in queries]
     # ---- re-derive the counterexamples of failing queries WITHOUT --slice-formula, in parallel (the sliced trace omits
     # assignments outside the failing assertion's cone of influence, so the nondet stream would be incomplete)
     rq = []
@@ -190,7 +202,9 @@ def execute(pid, tier, seed, cases, assumptions, extra_cov=None, budget_s=None, 
             if st == 'holds': broken.append('vacuous harness: witness of %s is unreachable' % c.name)
             elif st == 'skipped': skipped.append(r['name'])
             elif st != 'fails': undecided.append(r['name'])
-            elif r.get('failed') and not any('witness' in d for _, d in r['failed']):
+            elif r.get('failed') and not any('witness' in d for _, d in r['failed']) and \
+                    (any('unwinding assertion' in d for _, d in r['failed']) or (byname.get(r.get('witness_of') or c.name) or {}).get('status') == 'holds'):
+                # (when the case's own query fails too, the witness run simply stopped at that same violation)
                 broken.append('witness of %s failed on something other than the end-of-harness assertion: %s' % (c.name, [d for _, d in r['failed']][:2]))
             else:
                 # the witness must be the ONLY thing failing, otherwise it may be masked
